@@ -217,11 +217,7 @@ Definition parse_cr_value (s : str) : option (Z * Z * Z) :=
   | _ => None
   end.
 
-Definition kf_C15 (r : option brange) (n : Z) : string :=
-  match r with
-  | Some (Suffix s) => if (s <=? 0)%Z || (n <? s)%Z then "F13-suffix" else ""
-  | _ => ""
-  end.
+Definition kf_C15 (r : option brange) (n : Z) : string := "".   (* F13 is repaired (fix: dd0b389): nothing is excused *)
 
 Definition mon_C15_unit (x o : sx) : sx :=
   let hdr := sx_str (unit_arg x 0) in
@@ -233,7 +229,8 @@ Definition mon_C15_unit (x o : sx) : sx :=
   let recognised := sx_bool (sx_nth 0 o) in
   let seek := sx_int (sx_nth 6 o) in
   let size := sx_int (sx_nth 7 o) in
-  let body := if recognised then send_slice resource seek size else Some resource in
+  (* the slice is taken only when a 206 was announced; otherwise the whole resource is sent *)
+  let body := if recognised && Z.eqb st 206 then send_slice resource seek size else Some resource in
   let spec_r := spec_parse_range hdr in
   let kf := kf_C15 spec_r n in
   match body with
